@@ -281,7 +281,7 @@ theorem getCore_fuzzy_storage (rules : Rules) (H : String → K) (ctx : Ctx K) (
         have hfz : (ff.isEmpty && ctx.fuzzyOpts.isEmpty) = false := by
           rw [findOpts_isEmpty hff]
           unfold Ctx.fuzzy at h
-          simpa using h
+          cases h1 : ctx.fuzzyFor.isEmpty <;> cases h2 : ctx.fuzzyOpts.isEmpty <;> simp [h1, h2] at h ⊢
         rw [components_fuzzy_new hfz _ _ _ _ hc]
         rfl
     · rfl
